@@ -25,6 +25,39 @@ KEYWORD_CALLS = ["int('10', base=2)", "int('10', 2)", "sorted([2, 1], reverse=Tr
                  "'a b'.split(sep=' ')", "'a'.center(3, '*')", "'{a}'.format(a=1)", "'a,b'.split(',', maxsplit=0)", "divmod(7, -2)",
                  "pow(2, 3, mod=5)", "pow(2, -1)", "abs(-0.0)", "float('nan') == float('nan')", "complex(1, imag=2)"]
 
+# every public callable of the builtins module (a superset of the evaluator's own whitelist constants.SAFE_CALLABLES) with
+# no argument, each small atom and each "producer" (one-shot iterators, super(), object()) as the argument: family added
+# after the seeded change C15-evaluation-errors-narrowed (next(iter([])) raises StopIteration, bool(super()) RuntimeError).
+# Not called by the harness itself: functions that would touch the worker's file descriptors or its interpreter state.
+_HARNESS_UNSAFE = {"open", "input", "breakpoint", "exec", "eval", "compile", "__import__", "exit", "quit", "print", "globals", "locals",
+                   "setattr", "delattr", "__build_class__", "license",
+                   "id", "hash"}  # id()/hash(): the property excludes identity; their values depend on the allocator / hash seed
+PRODUCERS = ["iter(())", "iter([0])", "reversed('')", "reversed([1])", "enumerate({})", "zip()", "zip([1], [2])", "filter(None, [0])",
+             "map(abs, ())", "range(0)", "super()", "object()", "[0, 1]", "'ab'", "{1: 2}", "b'a'", "ValueError('v')", "int", "len"]
+
+
+_ADDRESS_BEARING = {"iter(())", "iter([0])", "reversed('')", "reversed([1])", "enumerate({})", "zip()", "zip([1], [2])", "filter(None, [0])",
+                    "map(abs, ())", "super()", "object()", "len"}
+
+
+def builtin_calls():
+    import builtins
+
+    names = sorted(n for n in dir(builtins) if callable(getattr(builtins, n)) and n not in _HARNESS_UNSAFE and not n.startswith("_"))
+    out = []
+    for f in names:
+        out.append(f + "()")
+        for a in ["0", "1", "'a'", "()", "[0]", "None", "x"] + PRODUCERS:
+            if f in ("repr", "str", "ascii", "format") and a in _ADDRESS_BEARING:
+                continue  # the text spells the address of a temporary
+            out.append("%s(%s)" % (f, a))
+    for f in ("next", "getattr", "hasattr", "isinstance", "issubclass", "pow", "divmod", "format", "round", "filter", "map", "zip", "sum"):
+        for a in ("iter(())", "0", "'a'", "int", "[1]"):
+            for b in ("0", "'real'", "int", "None", "(int, str)"):
+                out.append("%s(%s, %s)" % (f, a, b))
+    return out
+
+
 NONSINGLETON_LITERAL = {"''", "'a'", "()", "(0,)", "[]", "[0]", "{}", "{1}", "1.5", "2", "-1", "0", "1"}
 
 
@@ -32,7 +65,7 @@ def _par(a):
     return a if a.isidentifier() or a.replace(".", "").isdigit() or a[0] in "([{'" else "(" + a + ")"
 
 
-def depth1(atoms=None, chains=True):
+def depth1(atoms=None, chains=True, builtins_too=False):
     """Every expression of depth <= 1 over the atom alphabet, simplest first, de-duplicated."""
     atoms = atoms or ATOMS
     out = list(atoms)
@@ -78,6 +111,8 @@ def depth1(atoms=None, chains=True):
                 out.append(tmpl.format(a=a))
     if chains:
         out += KEYWORD_CALLS
+    if builtins_too:
+        out += builtin_calls()
     seen, res = set(), []
     for e in out:
         if e not in seen:
@@ -88,7 +123,7 @@ def depth1(atoms=None, chains=True):
 
 @functools.lru_cache(maxsize=None)
 def depth1_full():
-    return tuple(depth1(ATOMS))
+    return tuple(depth1(ATOMS, builtins_too=True))
 
 
 @functools.lru_cache(maxsize=None)
